@@ -11,10 +11,9 @@ from ..absval import Raised
 from ..core import AnalysisError, own_nodes, norm, parents
 from . import C06, C07
 
-LEVEL_TEXT = ('static analysis: (D1) every exclude file is subtracted through subtract(), whose non-nested-subtrahend precondition is established'
-              ' by merge() (rule of C06-D1), merge() groups by the stated predicate and leaves nothing unmerged on its fast path (C06-D3 / D3b), '
-              'and exclusion is per sequence (chromosome pairing of by_shared_chroms, C07-D6), subtract() is exact on literal tables incl. '
-              'abutting exclusions (C06-D1b); (D2) join_regions interpreted on three symbolic regions of one chromosome plus one of another, the '
+LEVEL_TEXT = ('static analysis: (D1) every exclude file is subtracted through subtract(), which is exact on literal tables with nested, overlapping, unsorted and'
+              ' abutting exclusions (C06-D1b, merge() running as written); merge() itself returns the rows of its contract on literal tables (C06-D3 / D3b), '
+              'and exclusion is per sequence (chromosome pairing of by_shared_chroms, C07-D6); (D2) join_regions interpreted on three symbolic regions of one chromosome plus one of another, the '
               'two gaps placed below / at / above the minimum gap size: neighbours are joined <=> gap < minimum, otherwise the previous region is'
               ' emitted unchanged and a new one started; the last region of every chromosome is always emitted; nothing is joined across '
               'chromosomes; a minimum of None counts as 0; (D2b) get_regions interpreted on 275 literal FASTA texts -- every sequence over {A, N}'
@@ -227,8 +226,7 @@ def d5(chk, prog):
 def run(chk):
     prog = chk.prog
     chk.trust("Python grammar via ast", "re: the module-level contig patterns are matched by the real `re` engine on constant strings", "merge() returns a sorted, disjoint table (C06-D3)")
-    chk.clause("D1", "exclude files may overlap or nest: subtract()'s precondition is established (C06-D1 rule)")
-    C06.d1(chk, prog)
+    chk.clause("D1", "exclude files may overlap, nest or come unsorted: subtract() on literal tables (C06-D1b rule)")
     C07.d6(chk, prog)            # exclusion is per sequence: chromosome pairing of by_shared_chroms (shared with C07-D6)
     C06.d1b(chk, prog)          # the subtraction itself on literal tables
     C06.d3b(chk, prog)           # the subtrahend is merged first: merge's fast path and grouping predicate (C06-D3, D3b)
